@@ -574,7 +574,17 @@ func Intersects(A, B *Shape) (bool, *Q) {
 		return false, nil
 	}
 	ba, bb := A.Boundary(), B.Boundary()
-	try := func(q Q) bool { return A.Member(q) && B.Member(q) }
+	amin, amax, _ := A.Box()
+	bmin, bmax, _ := B.Box()
+	try := func(q Q) bool {
+		if q.Lat { // a point outside either bounding box is in neither set: skip the membership tests
+			p := q.L
+			if p.X < amin.X || p.X > amax.X || p.Y < amin.Y || p.Y > amax.Y || p.X < bmin.X || p.X > bmax.X || p.Y < bmin.Y || p.Y > bmax.Y {
+				return false
+			}
+		}
+		return A.Member(q) && B.Member(q)
+	}
 	for _, e := range ba {
 		if q := Lat(e.A); try(q) {
 			return true, &q
